@@ -25,6 +25,7 @@ import numpy as np
 
 import common
 import c12_oracle as orc
+import c12_cov
 from common import coq_lit, CoqRaw, Some
 
 DEN = 4096
@@ -33,6 +34,7 @@ TOL = 1e-10
 F17_KEY = 'C12:GroupedSite:charges=drop:heterogeneous-dims:IndexError'
 F18_KEY = 'C12:GroupedSite:charges=same:after-set_common_charges:charge_to_JW_parity-list:TypeError'
 F121_KEY = 'C12:set_common_charges:sort_charge=False:UnboundLocalError-leg'
+F122_KEY = 'C12:set_common_charges:charges-not-reduced-modulo-new_mod:ValueError-charges-invalid'
 
 
 # ---------------------------------------------------------------------------------------------------------------------
@@ -131,6 +133,13 @@ def oracle_site(cls, kw, r):
             probs.append('state label %r missing' % lab)
         elif perm[r['labels'][lab]] != k:
             probs.append('perm[state_labels[%r]] = %d, documented basis index %d' % (lab, perm[r['labels'][lab]], k))
+    # documented aliases name the same state; no other labels
+    ali = orc.doc_aliases(cls, kw)
+    for a_, b_ in ali.items():
+        if r['labels'].get(a_) != r['labels'].get(b_):
+            probs.append('state label %r -> %r, but it is documented as an alias of %r -> %r' % (a_, r['labels'].get(a_), b_, r['labels'].get(b_)))
+    if set(r['labels']) != set(doc.labels) | set(ali):
+        probs.append('state labels %s are not the documented ones' % sorted(set(r['labels']) ^ (set(doc.labels) | set(ali))))
     excl = orc.excluded_ops(cls, kw)
     want_names = set(doc.ops) - excl
     got_names = set(r['ops'])
@@ -423,7 +432,7 @@ def book_cases(rng, ctx, n):
         for _ in range(rng.randint(2, 6)):
             ns = len(dims)
             kind = rng.choice(['group'] * 5 + ['group_sites', 'set_common', 'set_common', 'sort_charge', 'change_charge', 'change_charge',
-                                               'deepcopy', 'add_op', 'rename_op', 'remove_op'])
+                                               'deepcopy', 'add_op', 'add_op', 'rename_op', 'remove_op', 'bad_call'])
             anyref = (lambda: rng.randrange(ns) if rng.random() < 0.7 else ['g', rng.randrange(4)])
             if kind == 'group':
                 k = rng.choice([2, 2, 3])
@@ -442,9 +451,12 @@ def book_cases(rng, ctx, n):
                 if ns < 2:
                     continue
                 idxs = rng.sample(range(ns), rng.randint(2, min(3, ns)))
-                steps.append(['set_common', idxs, rng.choice(['same', 'drop', 'independent', 'sum', 'diff']), rng.random() < 0.8])
+                # documented options of set_common_charges: new_names, new_mod, old_charge_index by name, float factors, several new charges
+                opts = {'names': rng.random() < 0.4, 'mod': rng.choice([None, None, 2, 3, 4]), 'stridx': rng.random() < 0.4,
+                        'float': rng.random() < 0.3, 'second': rng.random() < 0.3, 'tuple': rng.random() < 0.3}
+                steps.append(['set_common', idxs, rng.choice(['same', 'drop', 'independent', 'sum', 'sum', 'diff', 'diff']), rng.random() < 0.8, opts])
             elif kind == 'sort_charge':
-                steps.append(['sort_charge', anyref()])
+                steps.append(['sort_charge', anyref(), rng.random() < 0.6])
             elif kind == 'change_charge':
                 mode = rng.choice(['drop', 'perm', 'perm', 'mod'])
                 steps.append(['change_charge', rng.randrange(ns), mode] + ([rng.choice([2, 3])] if mode == 'mod' else []))
@@ -453,12 +465,53 @@ def book_cases(rng, ctx, n):
                 steps.append(['deepcopy', i])
                 dims.append(dims[i])
             elif kind == 'add_op':
-                steps.append(['add_op', anyref(), rng.randrange(1000), rng.randrange(1000), rng.random() < 0.5])
+                opts = {'hc': rng.choice(['False', 'auto', 'auto', 'str']), 'arr': rng.choice([None, None, 'dense_default', 'dense_default', 'npc'])}
+                steps.append(['add_op', anyref(), rng.randrange(1000), rng.randrange(1000), rng.random() < 0.5, opts])
+            elif kind == 'bad_call':
+                # every refused call in turn (stratified over the cases)
+                steps.append(['bad_call', anyref(), (cidx + len(steps)) % 13])
             else:
                 steps.append([kind, anyref(), rng.randrange(1000)])
         if steps:
             cases.append({'sites': sites, 'steps': steps, 'seed': ctx.seed * 100000 + cidx})
     return cases
+
+
+def species_cases(rng, ctx):
+    cases = []
+    k = 0
+    for cn in ['N', 'parity', 'None', None]:
+        for cs in ['Sz', 'parity', 'None', None]:
+            k += 1
+            cases.append({'cons_N': cn, 'cons_Sz': cs, 'as_class': k % 2 == 0, 'seed': ctx.seed * 100 + k,
+                          'kwargs': {} if k % 3 else {'filling': rng.choice([0.25, 0.5, 1. / 3])}})
+    return cases
+
+
+def ctor_cases():
+    """constructor options outside the exported table: (case, expectation) with expectation = the equivalent table kwargs or the
+    documented exception"""
+    out = []
+    for cls, base in [('SpinHalfSite', {}), ('SpinSite', {'S': 1.0}), ('FermionSite', {}), ('BosonSite', {'Nmax': 2}), ('ClockSite', {'q': 3})]:
+        for falsy in [None, '']:
+            out.append(({'class': cls, 'kwargs': dict(base, conserve=falsy)}, {'same_as': dict(base, conserve='None')}))
+        out.append(({'class': cls, 'kwargs': dict(base, conserve='bogus')}, {'raises': 'ValueError'}))
+    for cls in ['SpinHalfFermionSite', 'SpinHalfHoleSite']:
+        for a, b, a2, b2 in [(None, None, 'None', 'None'), ('', 'Sz', 'None', 'Sz'), ('N', None, 'N', 'None'), ('parity', '', 'parity', 'None')]:
+            out.append(({'class': cls, 'kwargs': {'cons_N': a, 'cons_Sz': b}}, {'same_as': {'cons_N': a2, 'cons_Sz': b2}}))
+        out.append(({'class': cls, 'kwargs': {'cons_N': 'Sz'}}, {'raises': 'ValueError'}))
+        out.append(({'class': cls, 'kwargs': {'cons_Sz': 'N'}}, {'raises': 'ValueError'}))
+        out.append(({'class': cls, 'kwargs': {}}, {'same_as': {'cons_N': 'N', 'cons_Sz': 'Sz', 'filling': 1.0}}))       # documented defaults
+    out += [({'class': 'SpinSite', 'kwargs': {'S': 0.0}}, {'raises': 'ValueError'}), ({'class': 'SpinSite', 'kwargs': {'S': -1.0}}, {'raises': 'ValueError'}),
+            ({'class': 'SpinSite', 'kwargs': {'S': 0.75}}, {'raises': 'ValueError'}), ({'class': 'BosonSite', 'kwargs': {'Nmax': 0}}, {'raises': 'ValueError'}),
+            ({'class': 'ClockSite', 'kwargs': {'q': 1}}, {'raises': 'ValueError'}), ({'class': 'ClockSite', 'kwargs': {'q': 2.5}}, {'raises': 'ValueError'}),
+            # documented defaults of the constructors
+            ({'class': 'SpinHalfSite', 'kwargs': {}}, {'same_as': {'conserve': 'Sz'}}), ({'class': 'SpinSite', 'kwargs': {}}, {'same_as': {'S': 0.5, 'conserve': 'Sz'}}),
+            ({'class': 'FermionSite', 'kwargs': {}}, {'same_as': {'conserve': 'N', 'filling': 0.5}}),
+            ({'class': 'BosonSite', 'kwargs': {}}, {'same_as': {'Nmax': 1, 'conserve': 'N', 'filling': 0.0}}),
+            ({'class': 'ClockSite', 'kwargs': {'q': 4}}, {'same_as': {'q': 4, 'conserve': 'Z'}}),
+            ({'class': 'SpinSite', 'kwargs': {'S': 1, 'conserve': 'parity'}}, {'same_as': {'S': 1.0, 'conserve': 'parity'}})]
+    return out
 
 
 # ---------------------------------------------------------------------------------------------------------------------
@@ -537,7 +590,9 @@ def mpsterm_cases(rng, ctx):
         for jfr in [None, False, True] * 2:
             lo = rng.randrange(L)
             term = rand_window_term(rng, classes, lo, rng.randint(lo + 1, L), parity=rng.choice([0, 1, 1, None]), nmax=4)
-            jobs.append({'f': 'ops_list', 'term': term, 'autoJW': True, 'jfr': jfr})
+            # i_offset: the same absolute term handed in shifted by -off (boundaries: off = 0 and the largest shift keeping the sites valid)
+            off = rng.choice([0, lo, rng.randint(0, lo), -rng.randint(0, L - 1 - max(k_ for _, k_ in term))])
+            jobs.append({'f': 'ops_list', 'term': term, 'autoJW': True, 'jfr': jfr, 'off': off})
         jobs.append({'f': 'ops_list', 'term': rand_window_term(rng, classes, 0, L, nmax=4), 'autoJW': False, 'jfr': rng.choice([None, False])})
         for par in [0, 0, 1]:
             jobs.append({'f': 'ev_term', 'term': rand_window_term(rng, classes, 0, L, parity=par, nmax=4)})
@@ -575,6 +630,11 @@ def mpsterm_cases(rng, ctx):
         for par in ([0, 1] if homog else [0, 0]):
             lo = rng.randrange(L)
             jobs.append({'f': 'apply', 'term': rand_window_term(rng, classes, lo, rng.randint(lo + 1, L), parity=par), 'canonicalize': rng.random() < 0.7})
+        # one operator given by name to apply_local_op (first / last / random site; fermionic ones need the string on the virtual leg)
+        for i in [0, L - 1, rng.randrange(L)]:
+            c = classes[i]
+            op = rng.choice(FERM_OPS[c]) if (c in FERM_OPS and homog) else rng.choice(OTHER_OPS[c])
+            jobs.append({'f': 'apply_op', 'i': i, 'op': op, 'unitary': rng.choice([None, False])})
         cases.append({'sites': sites, 'seed': ctx.seed * 1000 + 500 + ci, 'jobs': jobs})
     return cases
 
@@ -609,6 +669,31 @@ def corr_cases(rng, ctx):
     cases.append({'sites': [none_spec('FermionSite'), none_spec('SpinHalfSite'), none_spec('FermionSite'), none_spec('SpinHalfSite'),
                             none_spec('FermionSite')], 'seed': ctx.seed * 1000 + k,
                   'pairs': [['Cd', 'C'], ['C', 'Cd'], ['C', 'C']], 'kwargs': {'sites1': [0, 2, 4], 'sites2': [0, 2, 4]}, 'subset': [0, 2, 4]})
+    # the documented options: sites1 / sites2 as int or unsorted lists (boundaries: first / last site, a single site), hermitian=True,
+    # operators as lists on heterogeneous chains, the documented refusals and the explicit opstr='JW'
+    for cons in ['N', 'parity', 'None']:
+        for rep in range(ctx.pick(1, 3)):
+            L = rng.choice([4, 5, 6])
+            k += 1
+            s1 = rng.choice([rng.randint(1, L), rng.sample(range(L), rng.randint(1, L)), [0], [L - 1], [0, L - 1]])
+            s2 = rng.choice([rng.randint(1, L), rng.sample(range(L), rng.randint(1, L)), [0], [L - 1], [L - 1, 0]])
+            cases.append({'sites': [spec('FermionSite', conserve=cons)] * L, 'seed': ctx.seed * 1000 + k, 'refuse': True,
+                          'pairs': [['Cd', 'C'], ['C', 'Cd'], ['C', 'C'], ['N', 'Cd C']], 'kwargs': {'sites1': s1, 'sites2': s2}})
+            k += 1
+            sh = rng.choice([None, rng.sample(range(L), rng.randint(2, L))])
+            cases.append({'sites': [spec('FermionSite', conserve=cons)] * L, 'seed': ctx.seed * 1000 + k,
+                          'pairs': [['Cd', 'C'], ['C', 'Cd'], ['N', 'N'], ['Cd C', 'N']],
+                          'kwargs': dict({'hermitian': True}, **({} if sh is None else {'sites1': sh, 'sites2': sh[::-1]}))})
+    for (cn, cs) in [('N', 'Sz'), ('parity', 'None')]:
+        k += 1
+        cases.append({'sites': [spec('SpinHalfFermionSite', cons_N=cn, cons_Sz=cs)] * 3, 'seed': ctx.seed * 1000 + k,
+                      'pairs': [['Cdu', 'Cu'], ['Cd', 'Cdd'], ['Sp', 'Sm']], 'kwargs': {'hermitian': True}})
+    k += 1
+    het = ['FermionSite', 'SpinHalfFermionSite', 'FermionSite', 'SpinHalfHoleSite']
+    cases.append({'sites': [none_spec(c) for c in het], 'seed': ctx.seed * 1000 + k, 'oplists': True,
+                  'pairs': [[['Cd', 'Cdu', 'C', 'Cdd'], ['C', 'Cu', 'Cd', 'Cd']], [['N', 'Ntot', 'dN', 'Sz'], ['N', 'Sp Sm', 'N', 'Nd']],
+                            [['C', 'Cd'], ['Cd', 'Cdu', 'C', 'Cu']]],
+                  'kwargs': {'sites1': rng.sample(range(4), rng.randint(1, 4)), 'sites2': rng.randint(1, 4)}})
     return cases
 
 
@@ -617,17 +702,27 @@ def chunked(cases, n):
     return [cases[i::n] for i in range(n)]
 
 
-def run_chunks(ctx, kind, cases, n=None):
-    """returns list of results aligned with cases (None for runner failures, which are recorded)"""
+TRACES = {}
+
+
+def run_chunks(ctx, kind, cases, n=None, trace_all=False):
+    """returns list of results aligned with cases (None for runner failures, which are recorded).  The first chunk of every stream
+    (all chunks with trace_all) runs with line recording of the anchored source files (coverage table, c12_cov)"""
     n = n or common.NPROC
     chunks = chunked(cases, n)
-    res = common.run_impl_parallel('c12_impl.py', [{'kind': kind, 'cases': ch} for ch in chunks], timeout=1500)
+    res = common.run_impl_parallel('c12_impl.py', [dict({'kind': kind, 'cases': ch}, **({'trace': True} if (ci == 0 or trace_all) else {}))
+                                                   for ci, ch in enumerate(chunks)], timeout=1500)
     out = [None] * len(cases)
     nn = len(chunks)
     for ci, (r, err) in enumerate(res):
         if err:
             ctx.fail('correspondence', '%s runner failed: %s' % (kind, err[-500:]), None)
             continue
+        if isinstance(r, dict) and 'trace' in r:
+            tr = TRACES.setdefault(kind, {})
+            for f, ls in r['trace'].items():
+                tr.setdefault(f, set()).update(ls)
+            r = r['results']
         for j, x in enumerate(r):
             out[ci + j * nn] = x
     return out
@@ -677,6 +772,8 @@ def main(ctx):
         for q in [2, 3, 4, 5]:
             extra += [{'class': 'ClockSite', 'kwargs': {'q': q, 'conserve': c}} for c in ['Z', 'None']]
     tcases += extra
+    for k_, c_ in enumerate(tcases):
+        c_.update({'api': True, 'seed': ctx.seed * 1000 + k_, 'nwords': ctx.pick(6, 40)})
     tres = run_chunks(ctx, 'table', tcases)
     n_guard = 0
     for case, r in zip(tcases, tres):
@@ -688,6 +785,11 @@ def main(ctx):
                      match_key='C12:table:constructor-raises')
             continue
         probs = oracle_site(case['class'], case['kwargs'], r)
+        if 'api_problems' not in r:
+            ctx.fail('correspondence', 'table runner did not verify the accessors of %s' % tag, {'stream': 'table', 'case': case})
+        elif r['api_problems']:
+            ctx.fail('oracle', '%s: %s' % (tag, '; '.join(r['api_problems'][:3])), {'stream': 'table', 'case': case},
+                     match_key='C12:table:accessors:' + case['class'])
         ctx.count('table', tag, nontrivial=True, sample={'site': tag, 'ops': sorted(r['ops']), 'perm': r['perm']})
         hist[case['class']] = hist.get(case['class'], 0) + 1
         if probs:
@@ -712,6 +814,58 @@ def main(ctx):
                 ctx.fail('correspondence', 'exported table G_sites.v of %s [%s] differs from the implementation: %s'
                          % (c['key'], c['cons'], ', '.join(bad[:5])), {'stream': 'table', 'case': case})
     ctx.cov['tables_reimported'] = n_guard
+    # ------------------------------------------------------------------ constructor options outside the table
+    cc = ctor_cases()
+    flat = []
+    for case, exp in cc:
+        flat.append(case)
+        if 'same_as' in exp:
+            flat.append({'class': case['class'], 'kwargs': exp['same_as']})
+    cres = run_chunks(ctx, 'ctor', flat, n=2, trace_all=True)
+    pos = 0
+    for case, exp in cc:
+        r = cres[pos]
+        r2 = cres[pos + 1] if 'same_as' in exp else None
+        pos += 2 if 'same_as' in exp else 1
+        tag = '%s(%s)' % (case['class'], ', '.join('%s=%r' % kv for kv in sorted(case['kwargs'].items())))
+        if r is None or 'runner_error' in r or (r2 is not None and 'runner_error' in r2):
+            ctx.fail('correspondence', 'ctor runner failed on %s: %s' % (tag, (r or {}).get('runner_error', '')[-300:]), {'stream': 'ctor', 'case': case})
+            continue
+        ctx.count('ctor', tag, nontrivial=True)
+        if 'raises' in exp:
+            if r['raised'] != exp['raises']:
+                ctx.fail('oracle', '%s: documented to be refused with %s, got %s' % (tag, exp['raises'], r['raised'] or 'a site'),
+                         {'stream': 'ctor', 'case': case}, match_key='C12:ctor:refusal:' + case['class'])
+        elif r['raised'] or r2['raised']:
+            ctx.fail('oracle', '%s raised %s: %s' % (tag, r['raised'] or r2['raised'], r.get('msg') or r2.get('msg')), {'stream': 'ctor', 'case': case},
+                     match_key='C12:ctor:raises:' + case['class'])
+        elif r != r2:
+            dd = [k_ for k_ in r if r[k_] != r2.get(k_)]
+            ctx.fail('oracle', '%s differs from the documented equivalent %s in %s' % (tag, exp['same_as'], dd), {'stream': 'ctor', 'case': case},
+                     match_key='C12:ctor:equivalent:' + case['class'])
+    # ------------------------------------------------------------------ spin_half_species
+    scases = species_cases(rng, ctx)
+    nf122 = 0
+    sres = run_chunks(ctx, 'species', scases, n=4, trace_all=True)
+    for case, r in zip(scases, sres):
+        if r is None:
+            continue
+        tag = [case['cons_N'], case['cons_Sz'], case['as_class'], case['kwargs']]
+        ctx.count('species', tag, nontrivial=True)
+        if 'runner_error' in r:
+            ctx.fail('correspondence', 'species runner failed: ' + r['runner_error'][-400:], {'stream': 'species', 'case': case})
+        elif 'error' in r:
+            key = 'C12:species:raises'
+            if case['cons_Sz'] == 'parity' and r['error'].startswith('ValueError: charges invalid for ChargeInfo') \
+                    and 'from_qflat' in (r.get('tb') or ''):
+                key = F122_KEY          # N_up - N_down = -1 is not reduced modulo 4
+                nf122 += 1
+            ctx.fail('oracle', 'spin_half_species(FermionSite, %r, %r) raised %s' % (case['cons_N'], case['cons_Sz'], r['error']),
+                     {'stream': 'species', 'case': case, 'traceback': r.get('tb')}, match_key=key)
+        elif r['problems']:
+            ctx.fail('oracle', 'spin_half_species(FermionSite, %r, %r%s): %s' % (case['cons_N'], case['cons_Sz'], ''.join(', %s=%r' % kv for kv in case['kwargs'].items()),
+                                                                                  '; '.join(r['problems'][:3])),
+                     {'stream': 'species', 'case': case}, match_key='C12:species:sites')
     _tick(ctx, 'tables')
 
     # ------------------------------------------------------------------ terms: model <-> implementation, dense oracle
@@ -742,6 +896,10 @@ def main(ctx):
             ctx.fail('oracle', 'sign * (ordered operators with JW strings) differs from the product of the term %s: max diff %.2e; impl=%s'
                      % (case['term'], r['dense_diff'], {k: r[k] for k in ('combined', 'sign', 'multi')}),
                      {'stream': 'terms', 'case': case, 'impl': r}, match_key='C12:terms:dense')
+        for pp in r.get('opstring_problems', [])[:1]:
+            ctx.fail('oracle', 'term %s: %s' % (case['term'], pp), {'stream': 'terms', 'case': case}, match_key='C12:terms:op_string')
+        if 'opstring_problems' not in r:
+            ctx.fail('correspondence', 'terms runner did not exercise the op_string option', {'stream': 'terms', 'case': case})
         if 'coupling' in r and 'multi' in r and 'error' not in r['coupling'] and 'error' not in r['multi']:
             cp, mu = r['coupling'], r['multi']
             if [cp['op_i'], cp['op_j']] != mu['ops'] or [cp['opstr']] != mu['opstr']:
@@ -818,8 +976,11 @@ def main(ctx):
     _tick(ctx, 'mpo')
     # ------------------------------------------------------------------ GroupedSite
     gcases = grouped_cases(rng, ctx) + grouped_cases_bookkeeping(rng, ctx)
+    for k_, c_ in enumerate(gcases):
+        c_['seed'] = ctx.seed * 100000 + k_
     gres = run_chunks(ctx, 'grouped', gcases)
     nf17 = nf18 = 0
+    hist['grouped_cases_with_kron'] = sum(1 for r in gres if r and r.get('kron'))
     for case, r in zip(gcases, gres):
         if r is None:
             continue
@@ -857,6 +1018,7 @@ def main(ctx):
     bres = run_chunks(ctx, 'book', bcases)
     nperm = nf121 = 0
     kinds = {}
+    optc = {}
     for case, r in zip(bcases, bres):
         if r is None:
             continue
@@ -867,6 +1029,18 @@ def main(ctx):
         for st_, a in zip(case['steps'], applied):
             if a == 'ok':
                 kinds[st_[0]] = kinds.get(st_[0], 0) + 1
+                # the option values actually applied
+                if st_[0] == 'bad_call':
+                    k_ = 'bad_call#%d' % (st_[2] % 13)
+                elif st_[0] == 'add_op':
+                    k_ = 'add_op hc=%s arr=%s' % (st_[5]['hc'], st_[5]['arr'] or ('dense_perm' if st_[4] else 'dense_noperm'))
+                elif st_[0] == 'set_common':
+                    k_ = 'set_common %s sort=%s' % (st_[2], st_[3]) + ''.join(' ' + o for o in sorted(st_[4]) if st_[4][o] and st_[2] in ('sum', 'diff'))
+                elif st_[0] == 'sort_charge':
+                    k_ = 'sort_charge bunch=%s' % st_[2]
+                else:
+                    continue
+                optc[k_] = optc.get(k_, 0) + 1
         nperm += bool(r.get('permuted'))
         ctx.count('book', [case['sites'], case['steps']], nontrivial=bool(r.get('permuted')) or applied.count('ok') >= 2,
                   sample={'sites': [[s_[0], s_[1]] for s_ in case['sites']], 'steps': case['steps'], 'applied': applied, 'sites_verified': r.get('verified')})
@@ -877,6 +1051,10 @@ def main(ctx):
                     and 'site.change_charge(leg, perm_flat)' in e.get('tb', ''):
                 key = F121_KEY
                 nf121 += 1
+            if e['op'][0] == 'set_common' and e['op'][2] in ('sum', 'diff') and e['op'][4].get('mod') and e['error'] == 'ValueError' \
+                    and e['msg'].startswith('charges invalid for ChargeInfo') and 'from_qflat(new_chinfo, new_qflat' in e.get('tb', ''):
+                key = F122_KEY          # explicit new_mod (and/or a negative factor): the new charges are not reduced modulo new_mod
+                nf122 += 1
             ctx.fail('oracle', 'site-transforming call %s (step %d of %s on %s) raised %s: %s'
                      % (e['op'], e['step'], case['steps'], [s_[0] for s_ in case['sites']], e['error'], e['msg']),
                      {'stream': 'book', 'case': {'sites': case['sites'], 'steps': case['steps'][:e['step'] + 1], 'seed': case['seed']},
@@ -887,7 +1065,13 @@ def main(ctx):
                      {'stream': 'book', 'case': {'sites': case['sites'], 'steps': case['steps'][:pr['step'] + 1], 'seed': case['seed']}},
                      match_key='C12:book:' + (pr['op'][0] if isinstance(pr['op'], list) else str(pr['op'])))
     hist['book_steps_applied'] = kinds
+    hist['book_options_applied'] = dict(sorted(optc.items()))
+    for k_ in ['bad_call#%d' % i for i in range(13)] + ['sort_charge bunch=False', 'sort_charge bunch=True'] \
+            + ['add_op hc=%s arr=%s' % (h, a) for h in ('False', 'auto', 'str') for a in ('dense_default', 'npc')]:
+        if not optc.get(k_):
+            ctx.fail('correspondence', 'book stream: the option value %r was never applied (stratification of the generator broken)' % k_, None)
     hist['set_common_charges_sort_charge_False_UnboundLocalError'] = nf121
+    hist['set_common_charges_charges_not_reduced_modulo_new_mod'] = nf122
     hist['book_cases_with_relabelled_basis'] = nperm
     _tick(ctx, 'book')
     # ------------------------------------------------------------------ correlation_function(autoJW)
@@ -900,13 +1084,20 @@ def main(ctx):
             ctx.fail('correspondence', 'corr runner failed: ' + r['runner_error'][-400:], {'stream': 'corr', 'case': case})
             continue
         for x in r:
-            ctx.count('corr', [case['sites'], x['a'], x['b'], case['seed']], nontrivial=x.get('norm', 0) > 1e-8)
+            ctx.count('corr', [case['sites'], x['a'], x['b'], case['seed'], case.get('kwargs')], nontrivial=x.get('norm', 0) > 1e-8)
             if 'error' in x:
                 ctx.fail('oracle', 'correlation_function(%r, %r) raised %s' % (x['a'], x['b'], x['error']), {'stream': 'corr', 'case': case},
                          match_key='C12:corr:raises')
             elif x['diff'] > TOL:
-                ctx.fail('oracle', 'correlation_function(%r, %r)[%s] differs from dense <psi|A_i B_j|psi> with Jordan-Wigner strings by %.2e'
-                         % (x['a'], x['b'], x['arg'], x['diff']), {'stream': 'corr', 'case': case, 'pair': [x['a'], x['b']]}, match_key='C12:corr:dense')
+                ctx.fail('oracle', 'correlation_function(%r, %r%s)[%s] differs from dense <psi|A_i B_j|psi> with Jordan-Wigner strings by %.2e'
+                         % (x['a'], x['b'], ''.join(', %s=%r' % kv for kv in case.get('kwargs', {}).items()), x['arg'], x['diff']),
+                         {'stream': 'corr', 'case': case, 'pair': [x['a'], x['b']]}, match_key='C12:corr:dense')
+            elif x.get('not_refused'):
+                ctx.fail('oracle', 'correlation_function(%r, ..) accepted the documented refusal case %s' % (x['a'], x['not_refused']),
+                         {'stream': 'corr', 'case': case, 'pair': [x['a'], x['b']]}, match_key='C12:corr:refusal')
+            elif x.get('opstr_diff', 0) > TOL:
+                ctx.fail('oracle', "correlation_function(%r, %r, opstr='JW') differs from the autoJW result by %.2e" % (x['a'], x['b'], x['opstr_diff']),
+                         {'stream': 'corr', 'case': case, 'pair': [x['a'], x['b']]}, match_key='C12:corr:opstr')
     _tick(ctx, 'corr')
     # ------------------------------------------------------------------ MPS-level consumers of _term_to_ops_list
     pcases = mpsterm_cases(rng, ctx) * 1
@@ -925,7 +1116,7 @@ def main(ctx):
             f = job['f']
             rep = {'stream': 'mpsterm', 'sites': case['sites'], 'seed': case['seed'], 'job': job}
             err = x.get('error')
-            if err is not None and not err.startswith('ValueError') and not (f == 'apply' and x.get('want_norm', 1.0) < 1e-10):
+            if err is not None and not err.startswith('ValueError') and not (f in ('apply', 'apply_op') and x.get('want_norm', 1.0) < 1e-10):
                 ctx.count('mpsterm', [case['sites'], case['seed'], job], nontrivial=True)
                 ctx.fail('oracle', '%s raised %s on %s' % (f, err, job), dict(rep, traceback=x.get('tb')), match_key='C12:mpsterm:raises:' + f)
                 continue
@@ -963,19 +1154,21 @@ def main(ctx):
                              % (f, [s_[0] for s_ in case['sites']] + [case['sites'][0][1]], {k_: v for k_, v in job.items() if k_ != 'f'},
                                 [complex(np.round(z, 10)) for z in got], [complex(np.round(z, 10)) for z in want]), rep,
                              match_key='C12:mpsterm:dense:' + f)
-            elif f == 'apply':
+            elif f in ('apply', 'apply_op'):
                 ctx.count('mpsterm', [case['sites'], case['seed'], job], nontrivial=x.get('want_norm', 0) > 1e-8 and not err)
                 if err:
                     # the term annihilates the state (locally: documented ValueError; only globally: the renormalisation fails), or an
                     # open string on a chain without fermion-parity charges
                     ok = x.get('want_norm', 1.0) < 1e-10 or (odd and not charged and 'JW' in err)
                     if not ok:
-                        ctx.fail('oracle', 'apply_local_term refused %s: %s' % (job, err), rep, match_key='C12:mpsterm:refused:apply')
+                        ctx.fail('oracle', '%s refused %s: %s' % ('apply_local_term' if f == 'apply' else 'apply_local_op', job, err), rep,
+                                 match_key='C12:mpsterm:refused:' + f)
                     continue
                 fcount[f] = fcount.get(f, 0) + 1
                 if x['diff'] > 1e-9:
-                    ctx.fail('oracle', 'apply_local_term(%s): the resulting state differs from (dense Jordan-Wigner operator of the term)|psi> by %.2e'
-                             % (job['term'], x['diff']), rep, match_key='C12:mpsterm:dense:apply')
+                    ctx.fail('oracle', '%s(%s): the resulting state differs from (dense Jordan-Wigner operator of the term)|psi> by %.2e'
+                             % ('apply_local_term' if f == 'apply' else 'apply_local_op', job.get('term', [job.get('op'), job.get('i')]), x['diff']), rep,
+                             match_key='C12:mpsterm:dense:' + f)
     bad, err = common.coq_failing_indices('cases_c12_tol', ['Base.Prelude', 'Model.JW', 'Model.JW2'], 'check_tol_case', tol_cases)
     if err:
         ctx.fail('correspondence', 'model evaluation failed (ops_list): ' + err[-600:], None)
@@ -987,6 +1180,17 @@ def main(ctx):
     hist['mpsterm_calls'] = fcount
     _tick(ctx, 'mpsterm')
     ctx.cov['input_distribution'] = hist
+    # ------------------------------------------------------------------ coverage table of the anchored source
+    items, cprobs = c12_cov.anchored_items(common.REPO)
+    for pp in cprobs:
+        ctx.fail('correspondence', 'coverage table: ' + pp, None)
+    rows, missing, (nreach, ntot) = c12_cov.table(items, {k_: {f: sorted(v) for f, v in tr.items()} for k_, tr in TRACES.items()})
+    ctx.cov['anchored_code'] = {'items': len(items), 'executable_lines': ntot, 'lines_reached_in_traced_chunks': nreach,
+                                'excluded': {k_: v for k_, v in c12_cov.EXCLUDED.items() if k_ in rows},
+                                'not_quantified_here': c12_cov.OUTSIDE, 'table': rows}
+    for name in missing:
+        ctx.fail('correspondence', 'coverage table: %s of the anchored source is neither executed by any stream nor classified as excluded '
+                 '(harness/c12_cov.py EXCLUDED): extend the generators' % name, None)
     ctx.assumptions += [
         'C12 tables: irrational entries (sqrt, roots of unity) are exported as squared entries / exponents after checking that the float '
         'value is within 1e-9 (squares) / 1e-13 (roots) of the exact value; algebra theorems for those operators are certificates over '
